@@ -154,6 +154,50 @@ func verifPrepared(t *testing.T, out *vfh.Out, prop string) {
 	}
 }
 
+// wildPre: what the plugins listed before the wildcard under test have already appended to the RA
+// (Interface.RouterAdvertisement applies the plugins in order to one RA): in two runs out of five,
+// options for the very networks the wildcard will expand to — same base address with the same and
+// with a shorter length, as a Prefix Information, a Route Information and an RDNSS option.  What a
+// wildcard appends must not depend on it.
+func wildPre(k int, cands []netip.Prefix) []ndp.Option {
+	if k%5 >= 2 || len(cands) == 0 {
+		return nil
+	}
+	var pre []ndp.Option
+	for i, c := range cands {
+		if i >= 3 || !c.IsValid() || !c.Addr().Is6() {
+			continue
+		}
+		bits := c.Bits()
+		if (k+i)%2 == 0 && bits >= 16 {
+			bits -= 16 // an aggregate with the same base address
+		}
+		base := netip.PrefixFrom(c.Addr(), c.Bits()).Masked().Addr()
+		switch (k / 5 + i) % 3 {
+		case 0:
+			pre = append(pre, &ndp.PrefixInformation{PrefixLength: uint8(bits), OnLink: true, ValidLifetime: time.Hour, PreferredLifetime: time.Hour, Prefix: base})
+		case 1:
+			pre = append(pre, &ndp.RouteInformation{PrefixLength: uint8(bits), Preference: ndp.High, RouteLifetime: time.Hour, Prefix: base})
+		default:
+			pre = append(pre, &ndp.RecursiveDNSServer{Lifetime: time.Hour, Servers: []netip.Addr{c.Addr()}})
+		}
+	}
+	return pre
+}
+
+// wildOwn returns the options the plugin appended, after checking that it left alone what was there.
+func wildOwn(t *testing.T, ra *ndp.RouterAdvertisement, pre []ndp.Option) []ndp.Option {
+	if len(ra.Options) < len(pre) {
+		t.Fatalf("Apply removed options that were in the RA before it ran (%d < %d)", len(ra.Options), len(pre))
+	}
+	for i := range pre {
+		if ra.Options[i] != pre[i] {
+			t.Fatalf("Apply replaced option %d that was in the RA before it ran", i)
+		}
+	}
+	return ra.Options[len(pre):]
+}
+
 func c13Run(t *testing.T, out *vfh.Out, bits int, k int, as []system.IP) {
 	stanza := mp("::/64")
 	if bits != 64 {
@@ -176,13 +220,19 @@ func c13Run(t *testing.T, out *vfh.Out, bits int, k int, as []system.IP) {
 	for _, a := range as {
 		sysIPToks(c, a)
 	}
-	ra := &ndp.RouterAdvertisement{}
+	var cands []netip.Prefix
+	for _, a := range as {
+		cands = append(cands, a.Address)
+	}
+	pre := wildPre(k, cands)
+	ra := &ndp.RouterAdvertisement{Options: append([]ndp.Option(nil), pre...)}
 	impl := new(vfh.Toks)
 	if err := p.Apply(ra); err != nil {
 		impl.S("err")
 	} else {
-		impl.N(len(ra.Options))
-		for _, o := range ra.Options {
+		own := wildOwn(t, ra, pre)
+		impl.N(len(own))
+		for _, o := range own {
 			pi, ok := o.(*ndp.PrefixInformation)
 			if !ok {
 				t.Fatalf("unexpected option %T", o)
@@ -200,12 +250,14 @@ func verifC13(t *testing.T, r *vfh.Rand, out *vfh.Out) {
 	if vfh.Thorough() {
 		k = 4
 	}
+	tcnt := 0
 	tuples(len(pool), k, func(idx []int) {
 		as := make([]system.IP, len(idx))
 		for i, j := range idx {
 			as[i] = pool[j]
 		}
-		c13Run(t, out, 64, len(idx), as)
+		c13Run(t, out, 64, tcnt, as)
+		tcnt++
 	})
 	n := vfh.N(3000, 100000)
 	for i := 0; i < n; i++ {
@@ -289,16 +341,22 @@ func c14Run(t *testing.T, out *vfh.Out, static []netip.Addr, as []system.IP) {
 		sysIPToks(c, a)
 	}
 	// the option is built three times from the same plugin: every build must be the same
+	var cands []netip.Prefix
+	for _, a := range as {
+		cands = append(cands, a.Address)
+	}
 	for build := 0; build < 3; build++ {
-		ra := &ndp.RouterAdvertisement{}
+		pre := wildPre(len(as)+len(static)+build, cands)
+		ra := &ndp.RouterAdvertisement{Options: append([]ndp.Option(nil), pre...)}
 		impl := new(vfh.Toks)
 		if err := rd.Apply(ra); err != nil {
 			impl.S("err")
 		} else {
-			if len(ra.Options) != 1 {
-				t.Fatalf("RDNSS.Apply produced %d options", len(ra.Options))
+			own := wildOwn(t, ra, pre)
+			if len(own) != 1 {
+				t.Fatalf("RDNSS.Apply produced %d options", len(own))
 			}
-			o := ra.Options[0].(*ndp.RecursiveDNSServer)
+			o := own[0].(*ndp.RecursiveDNSServer)
 			if o.Lifetime != 9*time.Second {
 				t.Fatalf("RDNSS lifetime %s", o.Lifetime)
 			}
@@ -318,8 +376,12 @@ func c14Run(t *testing.T, out *vfh.Out, static []netip.Addr, as []system.IP) {
 
 func verifC14(t *testing.T, r *vfh.Rand, out *vfh.Out) {
 	pool := c14Pool()
+	// static lists (sorted, as the parser leaves them); the last two hold addresses that are also on
+	// the interface: the wildcard's choice still comes first, whatever the static list says
 	statics := [][]netip.Addr{nil, {netip.MustParseAddr("2001:db8::53")},
-		{netip.MustParseAddr("2001:db8::53"), netip.MustParseAddr("fd00::53")}}
+		{netip.MustParseAddr("2001:db8::53"), netip.MustParseAddr("fd00::53")},
+		{netip.MustParseAddr("2001:db8::2"), netip.MustParseAddr("fd00::9")},
+		{netip.MustParseAddr("2001:db8::53"), netip.MustParseAddr("fd00::3"), netip.MustParseAddr("fd00::5"), netip.MustParseAddr("fe80::5")}}
 	k := 3
 	if vfh.Thorough() {
 		k = 4
@@ -412,13 +474,15 @@ func c15Run(t *testing.T, out *vfh.Out, k int, rs []netip.Prefix) {
 			t.Fatalf("Route.Prepare: %v", err)
 		}
 	}
-	ra := &ndp.RouterAdvertisement{}
+	pre := wildPre(k, rs)
+	ra := &ndp.RouterAdvertisement{Options: append([]ndp.Option(nil), pre...)}
 	impl := new(vfh.Toks)
 	if err := rt.Apply(ra); err != nil {
 		impl.S("err")
 	} else {
-		impl.N(len(ra.Options))
-		for _, o := range ra.Options {
+		own := wildOwn(t, ra, pre)
+		impl.N(len(own))
+		for _, o := range own {
 			ri, ok := o.(*ndp.RouteInformation)
 			if !ok {
 				t.Fatalf("unexpected option %T", o)
@@ -436,12 +500,14 @@ func verifC15(t *testing.T, r *vfh.Rand, out *vfh.Out) {
 	if vfh.Thorough() {
 		k = 4
 	}
+	tcnt := 0
 	tuples(len(pool), k, func(idx []int) {
 		rs := make([]netip.Prefix, len(idx))
 		for i, j := range idx {
 			rs[i] = pool[j]
 		}
-		c15Run(t, out, len(idx), rs)
+		c15Run(t, out, tcnt, rs)
+		tcnt++
 	})
 	n := vfh.N(3000, 100000)
 	for i := 0; i < n; i++ {
